@@ -51,7 +51,7 @@ Fixpoint dpatches (tf : tfile) (s : seg) : option (list dpatch) :=
                        loop l' k' sidx tidx (buf ++ raw c)
                      else if tidx <=? t0 cp then
                        let fp := first_leaf_pos c in
-                       let gap := if negb (t0 cp =? tidx) || negb (is_empty buf)
+                       let gap := if (tidx <? t0 cp) || negb (is_empty buf)
                                   then [mkD sidx (s0 fp) tidx (t0 cp) buf] else [] in
                        match dpatches tf c, loop l' k' (s1 cp) (t1 cp) [] with
                        | Some dc, Some dl => Some (gap ++ dc ++ dl)
